@@ -312,6 +312,16 @@ def big_shapes(d):
 
 
 # ------------------------------------------------------------------------------------------------ running and checking
+
+def _run(cmd):
+    """subprocess.run, retried while libsimgrid is being relinked by somebody else's bin/check (loader error, exit 127)"""
+    for attempt in range(12):
+        r = subprocess.run(cmd, stdout=subprocess.PIPE, stderr=subprocess.PIPE, text=True)
+        if r.returncode != 127 or "libsimgrid" not in r.stderr:
+            return r
+        time.sleep(10)
+    return r
+
 def execute(exe, specs, d, tag):
     """-> {case id: [output lines]}, {crashed id: status}"""
     by_tier = {}
@@ -327,7 +337,7 @@ def execute(exe, specs, d, tag):
         first = 0
         while first < len(ss):
             cmd = [exe, cf, "%.17g" % SPEED[tier], str(first), "--log=root.thres:critical"]
-            r = subprocess.run(cmd, stdout=subprocess.PIPE, stderr=subprocess.PIPE, text=True)
+            r = _run(cmd)
             cur, n_done = None, first
             for line in r.stdout.splitlines():
                 if line.startswith("case "):
